@@ -16,7 +16,10 @@ class _NS:
         self.__dict__.update(kw)
 
 
-def _event(vc, ts, te, func="FUNC", thrusting=False):
+_FUNC = _NS(func="thrust-function")
+
+
+def _event(vc, ts, te, func=_FUNC, thrusting=False):
     return vc.new(FT + "ScheduledFiniteBurn", start_time=ts, end_time=te, thrust_func=func, agent_id=1, _thrusting=thrusting)
 
 
@@ -51,13 +54,13 @@ def toggle(vc):
     vc.stub(FT + "@EventRecord", lambda *a: None)
     ev = _event(vc, ts, te)
     r1 = ev.getStateChangeCallback(ts + err)
-    vc.ensure("O-C15-toggle.start", r1 == "FUNC" and ev._thrusting is True)
+    vc.ensure("O-C15-toggle.start", r1 is ev.thrust_func and ev._thrusting is True)
     r2 = ev.getStateChangeCallback(te + err)
     vc.ensure("O-C15-toggle.end", r2 is None and ev._thrusting is False)
 
 
-@obligation("C15", "rearm", ensures=["O-C15-rearm.inside", "O-C15-rearm.outside", "O-C15-rearm.events"], fns=[CE + "Celestial._prepEvents", FT + "ScheduledFiniteThrust.getStateChangeCallback"],
-            mode="R", note="at the start of every propagation call the thrust is on iff the call starts strictly inside the interval (up to the last microsecond), off otherwise; the burn is always handed to the integrator as an event")
+@obligation("C15", "rearm", ensures=["O-C15-rearm.inside", "O-C15-rearm.outside", "O-C15-rearm.events", "O-C15-rearm.watches"], fns=[CE + "Celestial._prepEvents", FT + "ScheduledFiniteThrust.getStateChangeCallback", FT + "ScheduledFiniteThrust.__call__"],
+            mode="R", note="at the start of every propagation call the thrust is on iff the call starts strictly inside the interval (up to the last microsecond), off otherwise; the burn is always handed to the integrator as an event; and the event handed over (a fresh copy in a worker: its own on/off memory starts off) watches the END of the interval when the call starts inside it and the START when it starts before it - so a burn that is re-armed at a step boundary still stops inside a later step")
 def rearm(vc):
     import resonaate.dynamics.integration_events.finite_thrust as ft
     ts = vc.real("ts", 0, 1e6)
@@ -79,6 +82,15 @@ def rearm(vc):
         dyn.finite_thrust = "STALE"
         events = dyn._prepEvents(t0, None, [ev])
         vc.assume(abs(t0 - ts) > 1e-9 and abs(te - t0 - 1e-6) > 1e-9 and abs(te - t0) > 1e-9)
+    # the event function the integrator will see during this call, at any later time tq that is not (numerically) one of the two ends
+    tq = t0 + vc.real("later", 1e-3, 1e5)
+    if vc.symbolic:
+        vc.assume(vc.And(abs(tq - ts) > 1e-3, abs(tq - te) > 1e-3))
+    else:
+        vc.assume(abs(tq - ts) > 1e-3 and abs(tq - te) > 1e-3)
+    g = ev(tq, None)
+    vc.ensure("O-C15-rearm.watches", vc.And(vc.implies(vc.And(t0 > ts, t0 < te - 1e-5), vc.eq(g, te - tq, 0 if vc.symbolic else 1e-9)),
+                                            vc.implies(t0 < ts, vc.eq(g, ts - tq, 0 if vc.symbolic else 1e-9))))
     func = ev.thrust_func
     vc.ensure("O-C15-rearm.inside", vc.implies(vc.And(t0 > ts, t0 < te - 1e-5), dyn.finite_thrust is func))
     vc.ensure("O-C15-rearm.outside", vc.implies(vc.Or(t0 <= ts, t0 >= te), dyn.finite_thrust is None))
@@ -112,8 +124,8 @@ def apply_(vc):
     vc.ensure("O-C15-apply.toggle", dyn2.finite_thrust == "KEEP")
 
 
-@obligation("C15", "prune", ensures=["O-C15-prune.keep", "O-C15-prune.drop", "O-C15-prune.nodup"], fns=[AB + "Agent.prunePropagateEvents"], mode="R",
-            note="a finite burn stays in the agent's propagation queue exactly while the agent's time is before its end (so every step overlapping the interval sees it), is dropped afterwards, and is never queued twice")
+@obligation("C15", "prune", ensures=["O-C15-prune.keep", "O-C15-prune.drop", "O-C15-prune.nodup", "O-C15-prune.independent"], fns=[AB + "Agent.prunePropagateEvents"], mode="R",
+            note="a finite burn stays in the agent's propagation queue exactly while the agent's time is before its end (so every step overlapping the interval sees it), is dropped afterwards, and is never queued twice; this holds for each queued burn independently of the others (queue: burn, a second burn with its own interval, the first burn again), in queue order")
 def prune(vc):
     import resonaate.dynamics.integration_events.finite_thrust as ft
     ts = vc.real("ts", 0, 1e6)
@@ -125,17 +137,27 @@ def prune(vc):
         C = vc.cls(FT + "ScheduledFiniteBurn")
         vc.stub(AB + "@isinstance", lambda o, t: (isinstance(t, tuple) and ft.ScheduledFiniteBurn in t and isinstance(o, C)) or (t is ft.ScheduledFiniteThrust and isinstance(o, C)) or isinstance(o, t))
         vc.stub(FT + "@isinstance", lambda o, t: (t is ft.ScheduledFiniteThrust and isinstance(o, C)) or isinstance(o, t))
-        ag = vc.new(AB + "Agent", _time=now, propagate_event_queue=[ev, ev])
+        ts2 = vc.real("ts2", 0, 1e6)
+        te2 = ts2 + vc.real("dur2", 1e-3, 1e5)
+        ev2 = _event(vc, ts2, te2)  # same agent, same thrust function: a different burn only by its interval
+        vc.assume(vc.Or(abs(ts2 - ts) > 1e-3, abs(te2 - te) > 1e-3))
+        ag = vc.new(AB + "Agent", _time=now, propagate_event_queue=[ev, ev2, ev])
     else:
         f = partial(ft.eciBurn, acc_vector=np.zeros(3))
         ev = ft.ScheduledFiniteBurn(ts, te, f, 1)
-        ag = vc.new(AB + "Agent", _time=now, propagate_event_queue=[ev, ft.ScheduledFiniteBurn(ts, te, f, 1)])
-        vc.assume(abs(now - te) > 1e-9)
+        ts2 = vc.real("ts2", 0, 1e6)
+        te2 = ts2 + vc.real("dur2", 1e-3, 1e5)
+        ev2 = ft.ScheduledFiniteBurn(ts2, te2, partial(ft.eciBurn, acc_vector=np.ones(3)), 1)
+        vc.assume(abs(ts2 - ts) > 1e-3 or abs(te2 - te) > 1e-3)
+        ag = vc.new(AB + "Agent", _time=now, propagate_event_queue=[ev, ev2, ft.ScheduledFiniteBurn(ts, te, f, 1)])
+        vc.assume(abs(now - te) > 1e-9 and abs(now - te2) > 1e-9)
     ag.prunePropagateEvents()
     q = ag.propagate_event_queue
-    vc.ensure("O-C15-prune.keep", vc.implies(now < te - 1e-9, len(q) >= 1))
-    vc.ensure("O-C15-prune.drop", vc.implies(now >= te, len(q) == 0))
-    vc.ensure("O-C15-prune.nodup", len(q) <= 1)
+    n1, n2 = sum(1 for x in q if x is ev or (not vc.symbolic and x == ev)), sum(1 for x in q if x is ev2)
+    vc.ensure("O-C15-prune.keep", vc.implies(now < te - 1e-9, n1 >= 1))
+    vc.ensure("O-C15-prune.drop", vc.implies(now >= te, n1 == 0))
+    vc.ensure("O-C15-prune.nodup", n1 <= 1 and n2 <= 1 and len(q) == n1 + n2)
+    vc.ensure("O-C15-prune.independent", vc.And(vc.implies(now < te2 - 1e-9, n2 == 1), vc.implies(now >= te2, n2 == 0)))
 
 
 @obligation("C15", "accel", ensures=["O-C15-accel.eci", "O-C15-accel.ntw", "O-C15-accel.maneuvers"], fns=[FT + "eciBurn", FT + "ntwBurn", FT + "spiralThrust", FT + "planeChangeThrust"],
